@@ -34,7 +34,7 @@ def load_corpus(pid):
 
 
 HOOK_COMMITS = ["29e0810", "739e797", "cf39cf9", "652b91e", "e71d18b", "87e24fd", "a0b177c", "d307356", "a2cf7a8", "32ea923",
-                "c3212bb", "2017279", "f82d6ac", "f4f6e91", "3d9871e", "eae7527", "430b815", "50578be", "8cabe9e", "dbfd1e8", "b5be554", "2061294", "5e81022", "fbbe690", "b82c48c", "4e87dc5", "3e170f4", "f5496c2"]
+                "c3212bb", "2017279", "f82d6ac", "f4f6e91", "3d9871e", "eae7527", "430b815", "50578be", "8cabe9e", "dbfd1e8", "b5be554", "2061294", "5e81022", "fbbe690", "b82c48c", "4e87dc5", "3e170f4", "f5496c2", "34204b1"]
 NOT_CLAIMED = {}
 
 
@@ -236,6 +236,9 @@ class C01(ResolveSpec):
             if i % 10 == 6:
                 # wildcard audits of one crate in two sources, entry #0 of each, with different criteria
                 gen.boost_wild_two_sources(rng, c)
+            if i % 10 == 0:
+                # a crates.io package sharing its name with a path package whose (unversioned) policy says audit-as-crates-io = false
+                gen.boost_overlap_unversioned(rng, c)
             cases.append(c)
         return cases
 
@@ -1599,7 +1602,8 @@ class C17(SimpleSpec):
     model_imports = ["Base", "Extracted", "Criteria", "Search", "AuditGraph", "DepGraph", "Resolve", "Show", "Suggest", "ShowSuggest"]
     coq_files = ["Properties/C17.v"]
     theorems = ["C17_suggested_pair_is_common", "C17_candidate_heals", "C17_dedup_merges_criteria", "C17_dedup_keeps_all_criteria",
-                "C17_certifying_every_suggestion_makes_vet_pass", "C17_preselected_criteria_connect"]
+                "C17_certifying_every_suggestion_makes_vet_pass", "C17_preselected_criteria_connect",
+                "C17_certify_guess_connects", "C17_certify_guess_first_look_wins"]
     level_text = ("Theorems about the model of suggest_delta / compute_suggest: for every failing crate the (from, to) pair chosen lies "
                   "in the reachable-from-root resp. reachable-from-target set of EVERY failed criterion (for any diffstat oracle), and "
                   "certifying such a pair for a list carrying a failed criterion makes the crate certified for it (C17_candidate_heals, "
@@ -1622,7 +1626,7 @@ class C17(SimpleSpec):
     quick_n = 150
 
     def model_modules_paths(self):
-        return ["ShowSuggest"]
+        return ["ShowSuggest", "ShowUpdate", "ShowUser", "ShowCollapse", "ShowGuess"]
 
     def gen_cases(self, rng, n):
         out = []
@@ -1658,12 +1662,27 @@ class C17(SimpleSpec):
 
     def run(self, rng, tier, work, model_ok=True, ncases=None, replay=None):
         # cases with git-revision nodes are outside the model: drop their model expression
+        if replay:
+            with open(replay) as f:
+                r0 = json.load(f)
+            if (r0.get("case", r0)).get("kind") == "history":
+                return _C17Hist().run(rng, tier, work, model_ok, ncases, replay)
         orig = self.model_expr
         res = None
         try:
             res = self._run(rng, tier, work, model_ok, ncases, replay)
         finally:
             self.model_expr = orig
+        if replay or res is None:
+            return res
+        # the last clause of the property — "the criteria certify pre-selects for a given delta are ones for which that delta
+        # connects an audited version to a needed one" — on the real command: `certify` without --criteria, ENTER at the prompt
+        hs = _C17Hist()
+        r2 = hs.run(__import__("random").Random(rng.random()), tier, os.path.join(work, "hist"), model_ok, ncases=(4 if tier == "quick" else 60))
+        res["cases"] += r2["cases"]
+        res["mismatches"] += r2["mismatches"]
+        res["oracle_failures"] += r2["oracle_failures"]
+        res["stats"]["certify_guess_histories"] = r2.get("stats", {})
         return res
 
     def _run(self, rng, tier, work, model_ok, ncases, replay):
@@ -1926,6 +1945,49 @@ class C15(SimpleSpec):
         return c
 
     def run(self, rng, tier, work, model_ok=True, ncases=None, replay=None):
+        rc = None
+        if replay:
+            try:
+                rc = json.load(open(replay)).get("case") or {}
+            except Exception:
+                rc = {}
+        if rc is not None and rc.get("kind") == "resolve":
+            rc.setdefault("id", "replay")
+            res = {"cases": [rc["id"]], "mismatches": [], "oracle_failures": [], "samples": [], "findings_seen": {}, "stats": {}}
+            jcases = [rc]
+        else:
+            res = self.run_validate(rng, tier, work, model_ok, ncases, replay)
+            if replay:
+                return res
+            # stage 2: "never a success that the well-formed part of the data does not justify" — a crate with no record at all
+            # and a peer serving only ill-formed / non-importable entries for it: the verdict must still name the crate
+            r2 = __import__("random").Random(rng.random())
+            jcases = [c for c in (gen.gen_junk_verdict_case(r2, f"j{i}") for i in range(30 if tier == "quick" else 300)) if c]
+        obs = vetlib.run_harness([gen.strip_struct(c) for c in jcases], os.path.join(work, "impl-junk"))
+        tags = Counter()
+        for c in jcases:
+            o = obs.get(c["id"]) or {}
+            what = None
+            if o.get("status") == "panic" or o.get("panic"):
+                what = f"cargo-vet crashed on a peer's ill-formed entries: {str(o.get('panic'))[:160]}"
+            elif o.get("status") == "ok":
+                r = O.Report(o["obs"])
+                nodes = o["tables"]["nodes"]
+                failing = sorted(nodes[i].split(":")[0] for i in r.failures())
+                tags[r.kind] += 1
+                if r.kind == "success" or (r.kind == "failvet" and c.get("junk_for") not in failing):
+                    what = (f"{c.get('junk_for')} has no record at all and the peer serves only ill-formed or non-importable entries for it "
+                            f"({'; '.join(j.splitlines()[-1] for j in c.get('junk', []))}), yet the verdict is {r.kind} {failing}")
+            else:
+                tags[str(o.get("status"))] += 1
+            if what:
+                res["oracle_failures"].append({"id": c["id"], "what": what, "finding": None,
+                                               "case": gen.strip_struct(c) | {"junk_for": c.get("junk_for"), "junk": c.get("junk")}})
+        res["cases"] += [c["id"] for c in jcases]
+        res["stats"]["junk_verdict_cases"] = dict(tags)
+        return res
+
+    def run_validate(self, rng, tier, work, model_ok=True, ncases=None, replay=None):
         res = super().run(rng, tier, work, model_ok, ncases, replay)
         # refusals for reasons outside the model (TOML parse, lock freshness, formatting, peer
         # diagnostics) and panics caused by a PEER's table are not predictions of the model
@@ -2456,7 +2518,7 @@ class HistorySpec(Spec):
             cases = [r.get("case", r)]
             cases[0].setdefault("id", "replay")
         else:
-            cases = load_corpus(self.pid) + self.gen_cases(rng, n)
+            cases = [c for c in load_corpus(self.pid) if c.get("kind") == "history"] + self.gen_cases(rng, n)
         return hist.run_histories(self, cases, work, model_ok=model_ok)
 
 
@@ -2472,6 +2534,19 @@ class _C05Hist(HistorySpec):
 
     def step_nontrivial(self, st):
         return st.cls == "certify" and st.outcome == "ok"
+
+
+class _C17Hist(HistorySpec):
+    """the history stage of the C17 check: the criteria `certify` pre-selects when the user names none"""
+    pid = "C17"
+    oracle_fn = staticmethod(hist.oracle_c17)
+    compare_user_commands = True
+
+    def gen_cases(self, rng, n):
+        return [gen.scenario_certify_guess(f"cg{k}", k) for k in range(4)] + [gen.gen_history(rng, f"h{i}") for i in range(n)]
+
+    def step_nontrivial(self, st):
+        return st.cls == "certify" and "--criteria" not in st.args
 
 
 class _C12Hist(HistorySpec):
@@ -2638,7 +2713,10 @@ class C18(SimpleSpec):
         return ["ShowLock"]
 
     def gen_cases(self, rng, n):
-        return [gen.gen_lock_case(rng, f"l{i}") for i in range(n)]
+        r2 = __import__("random").Random(rng.random())
+        # a fixed share of cases in which four to eight invocations queue on the cache at once
+        return ([gen.gen_cache_contention_case(r2, f"cc{i}") for i in range(max(6, n // 12))] +
+                [gen.gen_lock_case(rng, f"l{i}") for i in range(n)])
 
     def model_expr(self, o):
         mi = o["model_input"]
